@@ -46,10 +46,13 @@ ASSUMPTIONS = ["the grace period is the documented 15 s (Registration.grace_peri
                "an inferred base is the registrant's source address written as coap://[ip]:port",
                "time comparisons use a tolerance of 1e-9 s; at an exact tie both outcomes are accepted",
                "URI reference resolution (urllib.parse.urljoin) is shared with the code under test",
-               "simple registration (POST /.well-known/rd) and the proxy extension are not exercised"]
+               "simple registration (POST /.well-known/rd) runs as a workload of its own (8 % of the runs) with a "
+               "set-level oracle (listed endpoints, distinct answering locations, removal by location); the proxy "
+               "extension is not exercised"]
 EXPECTED_PROBES = ["reg_created", "rereg", "rereg_4xx_live", "update_ok", "update_4xx_live", "delete_ok",
                    "expired_seen", "boundary_pre_eps", "boundary_post_eps", "boundary_tie", "lookup_strict",
-                   "lookup_paged", "sweep", "lookup_rich", "resp_from_wire", "blockwise_lookup", "stale_location_404"]
+                   "lookup_paged", "sweep", "lookup_rich", "resp_from_wire", "blockwise_lookup", "stale_location_404",
+                   "simple_registration", "registration_during_simple_registration_fetch"]
 
 GRACE = 15
 MAX_BODY = 900
@@ -208,6 +211,12 @@ MALFORMED = [["page=1"], ["count=abc"], ["page=x", "count=2"], ["page=-1", "coun
 
 
 def gen(r, tier):
+    if r.chance(0.08):
+        return gen_simple(r)
+    return gen_main(r, tier)
+
+
+def gen_main(r, tier):
     nclients = r.choice([1, 2, 2, 3])
     nslots = r.choice([1, 2, 3, 4])
     slots = []
@@ -545,7 +554,165 @@ class Stop(Exception):
     pass
 
 
+def execute_simple(sim, scn):
+    """Simple registration (RFC 9176 section 5.1): the registrant POSTs to /.well-known/rd, the directory fetches the
+    registrant's /.well-known/core (here: slowly) and registers what it finds.  While that fetch is under way the
+    directory goes on serving others.  Afterwards: the look-up lists exactly the live endpoints, every one at a
+    location of its own that answers, and removing one location removes exactly that endpoint."""
+    import asyncio
+    import aiocoap
+    import aiocoap.resource as resource
+    from aiocoap import GET, POST, DELETE, Message
+    from aiocoap.cli.rd import StandaloneResourceDirectory
+
+    loop = sim.loop
+    sim.nontrivial = True
+    delays = {}
+
+    class SlowWKC(resource.Resource):
+        def __init__(self, name):
+            super().__init__()
+            self.name = name
+
+        async def render_get(self, request):
+            sim.log("app", "wkc-fetch", self.name)
+            await asyncio.sleep(delays.get(self.name, 0.0))
+            return Message(payload=("</s/%s>;rt=\"simple\"" % self.name).encode(), content_format=40)
+
+    async def setup():
+        ctx = await sim.server(None, common.SERVER_IP)
+        ctx.serversite = StandaloneResourceDirectory(context=ctx)
+        regs_ = []
+        for i in range(3):
+            site = resource.Site()
+            site.add_resource([".well-known", "core"], SlowWKC("n%d" % i))
+            regs_.append(await sim.server(site, "fd00::%x" % (0x30 + i), loggername="coap"))
+        return ctx, regs_
+
+    rd, nodes = loop.run_until_complete(setup())
+    viol = []
+
+    async def req(node, code, path, query=()):
+        msg = Message(code=code, uri="coap://[%s]/" % common.SERVER_IP)
+        msg.opt.uri_path = tuple(path)
+        msg.opt.uri_query = tuple(query)
+        try:
+            return await asyncio.wait_for(nodes[node].request(msg).response, 300)
+        except Exception as e:
+            return e
+
+    def code_of(r):
+        return None if isinstance(r, Exception) else (int(r.code) >> 5, int(r.code) & 31)
+
+    async def lookup():
+        r = await req(2, GET, ("endpoint-lookup", ""))
+        if code_of(r) != (2, 5):
+            return None
+        try:
+            return lf_parse(r.payload.decode("utf-8"))
+        except (LinkFormatError, UnicodeDecodeError):
+            return None
+
+    live = {}  # ep -> True
+
+    async def main():
+        for st in scn["steps"]:
+            k = st["k"]
+            sim.log("app", "simple-step", k)
+            if k == "reg":
+                r = await req(st["n"], POST, ("resourcedirectory", ""), ["ep=" + st["ep"]])
+                if code_of(r) == (2, 1):
+                    live[st["ep"]] = True
+            elif k == "simple":
+                delays["n%d" % st["n"]] = st["d"]
+                sim.probe("simple_registration")
+                t = loop.create_task(req(st["n"], POST, (".well-known", "rd"), ["ep=" + st["ep"]]))
+                # what happens while the directory is fetching
+                await asyncio.sleep(st["d"] / 2 if st["d"] else 0)
+                for inner in st.get("meanwhile", []):
+                    if inner["k"] == "reg":
+                        sim.probe("registration_during_simple_registration_fetch")
+                        r = await req(inner["n"], POST, ("resourcedirectory", ""), ["ep=" + inner["ep"]])
+                        if code_of(r) == (2, 1):
+                            live[inner["ep"]] = True
+                    elif inner["k"] == "del":
+                        links = await lookup() or []
+                        hrefs = [h for h, a in links if ("ep", inner["ep"]) in a]
+                        if hrefs:
+                            r = await req(2, DELETE, tuple(hrefs[0].strip("/").split("/")) + ("",))
+                            if code_of(r) == (2, 2):
+                                live.pop(inner["ep"], None)
+                r = await t
+                if code_of(r) == (2, 4):
+                    live[st["ep"]] = True
+                elif code_of(r) is not None and code_of(r)[0] == 5:
+                    viol.append(("C20/simple-registration-5xx", {"step": st, "code": "%d.%02d" % code_of(r)}))
+            # ---- after every step: the directory as the look-up shows it
+            links = await lookup()
+            if links is None:
+                viol.append(("C20/lookup-failed", {"after": st}))
+                return
+            eps = sorted(v for h, a in links for kk, v in a if kk == "ep")
+            hrefs = [h for h, a in links]
+            if eps != sorted(live):
+                viol.append(("C20/lookup-misses-live-registration" if set(live) - set(eps) else "C20/lookup-lists-dead-registration",
+                             {"after": st, "listed": eps, "live": sorted(live)}))
+                return
+            if len(set(hrefs)) != len(hrefs):
+                viol.append(("C20/location-shared", {"after": st, "locations": hrefs, "endpoints": eps}))
+                return
+            for h in hrefs:
+                r = await req(2, GET, tuple(h.strip("/").split("/")) + ("",))
+                if code_of(r) != (2, 5):
+                    viol.append(("C20/live-registration-not-found", {"after": st, "location": h,
+                                                                     "answer": None if code_of(r) is None else "%d.%02d" % code_of(r)}))
+                    return
+        # finally: removing one location removes exactly that endpoint
+        links = await lookup() or []
+        if links:
+            h, a = links[0]
+            gone = [v for kk, v in a if kk == "ep"][0]
+            r = await req(2, DELETE, tuple(h.strip("/").split("/")) + ("",))
+            after = await lookup() or []
+            eps = sorted(v for _, aa in after for kk, v in aa if kk == "ep")
+            want = sorted(e for e in live if e != gone)
+            if code_of(r) == (2, 2) and eps != want:
+                viol.append(("C20/delete-removed-other-registration", {"deleted": h, "listed": eps, "expected": want}))
+
+    task = loop.create_task(main())
+    sim.run(stop=task.done, horizon=3000)
+    if not task.done():
+        task.cancel()
+        raise RuntimeError("simple-registration driver did not finish")
+    task.result()
+    for kind, detail in viol[:1]:
+        sim.violation(kind, detail)
+    for (t, m, en, es) in sim.loop_exceptions():
+        sim.anomaly("loop-exception", "%s %s %s" % (m, en, es))
+
+
+def gen_simple(r):
+    steps = []
+    names = ["a", "b", "c", "d"]
+    for _ in range(r.randint(1, 4)):
+        if r.chance(0.5):
+            steps.append({"k": "reg", "n": r.randrange(3), "ep": r.choice(names)})
+        else:
+            st = {"k": "simple", "n": r.randrange(2), "ep": r.choice(names), "d": r.choice([0.0, 1.0, 1.0, 3.0]), "meanwhile": []}
+            # (what happens meanwhile is placed in the middle of a fetch that takes at least a second, so that its
+            # order relative to the start and the end of the simple registration is not in doubt)
+            for _ in range(r.choice([0, 1, 1, 2]) if st["d"] >= 1.0 else 0):
+                if r.chance(0.7):
+                    st["meanwhile"].append({"k": "reg", "n": 2, "ep": r.choice(names)})
+                else:
+                    st["meanwhile"].append({"k": "del", "ep": r.choice(names)})
+            steps.append(st)
+    return {"workload": "simple", "steps": steps, "ops": [], "net": {}}
+
+
 def execute(sim, scn):
+    if scn.get("workload") == "simple":
+        return execute_simple(sim, scn)
     import asyncio
     from urllib.parse import urljoin
 
